@@ -1,7 +1,10 @@
 """C35 - compiled mass properties match the geometry: MassProps.tla decided by TLC on an integer lattice of box geoms
 (volume / shell / explicit mass / 12-triangle meshes, fused and separate static children, settotalmass); every finished
 lattice model is compiled by the real compiler and body_mass, body_ipos and the tensor rebuilt from body_iquat /
-body_inertia are compared with the exact rationals published by the specification."""
+body_inertia are compared with the exact rationals published by the specification.  The specification is a state machine
+over a living mjSpec: after a compile it edits geom group / density / mass / size / position or inertiagrouprange and
+compiles the SAME spec again (mj_recompile or a second mj_compile); every such history is replayed on one mjSpec object,
+each compile is compared with the specification, and the last one also with a freshly built spec of the same content."""
 import concurrent.futures as cf
 import os
 from fractions import Fraction
@@ -22,14 +25,21 @@ META = dict(
               "mesh integrals by signed tetrahedra / triangles over the 12 triangles of a box, body centre of mass and "
               "inertia derived twice (pairwise Lagrange form and origin-then-shift) in exact integers; TLC decides the "
               "parallel-axis theorem, mesh = box for all 64 tessellations, symmetry and triangle inequalities; every "
-              "finished model is replayed into mj_compile",
+              "finished model is replayed into mj_compile; the spec lives on through Edit* / Recompile actions with the "
+              "compiler's kept per-geom record modelled, TLC decides HistoryIndependent (compiled properties after any "
+              "history = those of a fresh spec of the current content) and refutes it for the count-by-kept-mass design",
     text="Exhaustive lattices (1-2 geoms x kinds x sizes x offsets x orientations x child fused / separate; all mesh "
          "tessellations in the thorough tier) and simulated 1-3 geom models over the full lattice (24 orientations, 125 "
          "offsets, meshes with shifted vertices, settotalmass) are compiled; body_mass, body_ipos, the full inertia "
-         "tensor R(iquat) diag(inertia) R' and the triangle inequality of the principal moments are compared (1e-9).",
+         "tensor R(iquat) diag(inertia) R' and the triangle inequality of the principal moments are compared (1e-9). "
+         "Edit-and-recompile histories (exhaustive 2-compile histories over group / range / density / size edits, 3-compile "
+         "histories in the thorough tier, simulated 3-compile histories over the full lattice) run on one mjSpec through "
+         "mj_recompile and repeated mj_compile; after every compile the same comparison is made, and the final content is "
+         "also compiled from a fresh spec.",
     note="Trusted: TLC, harness massprops_drv.cc (own quaternion -> matrix), rendering of the lattice model as a mkmodel "
          "description. Not decided: curved primitives (pi), convex-hull mesh inertia (no qhull in the offline build), "
-         "general (non axis-aligned) orientations, boundmass / boundinertia / balanceinertia.",
+         "general (non axis-aligned) orientations, boundmass / boundinertia / balanceinertia; specs whose static "
+         "child was fused are not edited further (fusestatic deletes the body from the spec).",
     ref="DESIGN.md section 4 C35")
 
 GEOM_BOX, GEOM_MESH = 6, 7
@@ -55,7 +65,9 @@ def xyaxes(R):
     return csv([R[0][0], R[1][0], R[2][0], R[0][1], R[1][1], R[2][1]])
 
 
-def model_lines(ev):
+def model_lines(ev, geoms=None):
+    """description of the spec content `geoms` (default: the current content of ev)"""
+    geoms = ev["geoms"] if geoms is None else geoms
     ch = ev["child"]
     fused = ch["mode"] == "fused"
     L = ["compiler fusestatic=%d boundmass=0 boundinertia=0 settotalmass=%s" % (
@@ -64,9 +76,10 @@ def model_lines(ev):
          "joint body=b1 name=j1 type=3 axis=0,0,1"]
     if ch["mode"] != "none":
         L.append("body name=b2 parent=b1 pos=%s alt_type=%d xyaxes=%s" % (csv(ch["pos"]), XYAXES, xyaxes(ch["R"])))
-    for i, g in enumerate(ev["geoms"]):
+    for i, g in enumerate(geoms):
         body = "b%d" % g["own"]
-        common = "pos=%s alt_type=%d xyaxes=%s contype=0 conaffinity=0" % (csv(g["pos"]), XYAXES, xyaxes(g["R"]))
+        common = "pos=%s alt_type=%d xyaxes=%s contype=0 conaffinity=0 group=%d" % (
+            csv(g["pos"]), XYAXES, xyaxes(g["R"]), g["group"])
         if g["kind"] in ("mesh", "meshshell"):
             verts = [c for v in ev["verts"][i] for c in v]
             faces = [k - 1 for t in ev["faces"][i] for k in t]
@@ -82,10 +95,13 @@ def model_lines(ev):
     return L
 
 
-def expected(ev):
-    """[(body id, {field: [Fraction]})] straight from the published record"""
+def expected(ev, bodies=None):
+    """[(body id, {field: [Fraction]}, ngeom)] straight from the published record; fields None: a body without mass"""
     out = []
-    for b in ev["bodies"]:
+    for b in (ev["bodies"] if bodies is None else bodies):
+        if b["zero"]:
+            out.append((b["id"], None, 0))
+            continue
         mass = Fraction(b["mnum"], b["mden"])
         com = [Fraction(s, b["M"]) for s in b["S"]]
         ten = [Fraction(x * b["inum"], b["iden"]) for x in b["I"]]
@@ -99,6 +115,17 @@ def features(ev):
     if ev["tmass"] > 0:
         f += ":settotalmass"
     return f
+
+
+def step_class(ev, k):
+    """name of compile k (0-based) of the history: how it was started and which kinds of edits preceded it"""
+    if k == "fresh":
+        return ":fresh-spec-of-final-content"
+    if k == 0:
+        return ""
+    h = ev["hist"][k]
+    ops = sorted(set(e["op"] for e in h["edits"])) or ["none"]
+    return ":after-%s:edits=%s" % (h["how"], "+".join(ops))
 
 
 def close(got, want, scale):
@@ -121,20 +148,25 @@ def parse_props(line):
         return None
 
 
-def judge(ev, ok_line, props_line):
+def judge(ev, ok_line, props_line, bodies=None):
     """None if the compiled model agrees with the specification, else (field class, text)"""
-    if ok_line != "ok":
+    if ok_line not in ("ok", "0"):
         return "compile", "model does not compile: %s" % ok_line
     got = parse_props(props_line)
     if got is None:
         return "harness", "unreadable harness output %r" % (props_line,)
-    exp = expected(ev)
+    exp = expected(ev, bodies)
     if got["nbody"] != 1 + (2 if ev["child"]["mode"] == "separate" else 1):
         return "nbody", "compiled model has %d bodies" % got["nbody"]
     for bid, fields, ngeom in exp:
         g = got.get(bid)
         if g is None:
             return "nbody", "body %d missing" % bid
+        if fields is None:
+            if g["mass"][0] != 0 or any(x != 0 for x in g["principal"]):
+                return "massless-body", "body %d has no geom selected for inertia but mass %.17g, inertia %r" % (
+                    bid, g["mass"][0], g["principal"])
+            continue
         for name in ("mass", "ipos", "tensor"):
             want = fields[name]
             scale = max([Fraction(1)] + [abs(w) for w in want]) if name != "mass" else abs(want[0])
@@ -157,12 +189,14 @@ def judge(ev, ok_line, props_line):
 
 # ---- TLC -> finished models ---------------------------------------------------------------------------------------
 DONE = '/\\ stage = "done"'
+FINAL = 'final |-> TRUE'          # the last compile of a behaviour: its ev.hist holds the whole history
 
 
 def mc_models(cfg, name, timeout):
     """exhaustive run with a state dump -> (name, TlcResult, [ev of every finished model])"""
     res, states, cleanup = tladump.run_dump(SPEC, os.path.join(TLA, cfg), timeout=timeout, workers=WORKERS,
-                                            select=lambda blk: {"ev"} if DONE in blk else None, java_opts=FAST_JIT)
+                                            select=lambda blk: {"ev"} if DONE in blk and FINAL in blk else None,
+                                            java_opts=FAST_JIT)
     try:
         evs = [st["ev"] for st in states()] if res.error is None else []
     finally:
@@ -171,7 +205,7 @@ def mc_models(cfg, name, timeout):
 
 
 def sim_models(cfg, name, num_b, seed, timeout):
-    res, behs = tladump.simulate(SPEC, os.path.join(TLA, cfg), num=num_b, depth=14, seed=seed, timeout=timeout,
+    res, behs = tladump.simulate(SPEC, os.path.join(TLA, cfg), num=num_b, depth=36, seed=seed, timeout=timeout,
                                  select=lambda act, blk: {"ev"} if DONE in blk else None, java_opts=FAST_JIT)
     if not res.generated:
         import re
@@ -193,14 +227,101 @@ def negative_record(ctx, name, res):
     ctx.control(name, res.violation is not None)
 
 
-def script(evs):
-    lines = []
-    for ev in evs:
-        lines.append("model 0")
-        lines += model_lines(ev)
+def edit_lines(e, geoms):
+    """harness commands of one edit record [op, i, val] (i: 1-based geom index)"""
+    if e["op"] == "range":
+        return ["irange 0 %d %d" % (e["val"][0], e["val"][1])]
+    g = geoms[e["i"] - 1]
+    name = "g%d" % (e["i"] - 1)
+    if e["op"] == "group":
+        return ["gset 0 %s group %d" % (name, e["val"])]
+    if e["op"] == "density":
+        return ["gset 0 %s %s %s" % (name, "mass" if g["kind"] == "boxmass" else "density", num(e["val"]))]
+    if e["op"] == "size":
+        return ["gset 0 %s size %s" % (name, csv(e["val"]))]
+    if e["op"] == "pos":
+        return ["gset 0 %s pos %s" % (name, csv(e["val"]))]
+    raise Machinery("unknown edit %r" % (e,))
+
+
+def history_script(ev):
+    """(lines, steps): one mjSpec in slot 0 lives through the whole history; steps = [(step id, index of the status line,
+    index of the props line, expected bodies)] with indices into this behaviour's output lines"""
+    hist = ev["hist"]
+    lines, steps = [], []
+    nout = 0
+
+    def op(l):
+        nonlocal nout
+        lines.append(l)
+        nout += 1
+        return nout - 1
+    h0 = hist[0]
+    lines.append("spec 0")
+    lines.extend(model_lines(ev, h0["geoms"]))
+    lines.append("end")
+    nout += 1
+    op("irange 0 %d %d" % (h0["range"][0], h0["range"][1]))
+    a = op("compile 0 0")
+    b = op("props 0")
+    steps.append((0, a, b, h0["bodies"]))
+    for k in range(1, len(hist)):
+        h = hist[k]
+        if h["how"] == "recompile":
+            op("data 0 0")
+        for e in h["edits"]:
+            for l in edit_lines(e, h["geoms"]):
+                op(l)
+        a = op("recomp 0 0 0" if h["how"] == "recompile" else "compile 0 0")
+        b = op("props 0")
+        steps.append((k, a, b, h["bodies"]))
+    if len(hist) > 1:
+        # the final content on a freshly built spec (no history)
+        lines.append("spec 1")
+        lines.extend(model_lines(ev, hist[-1]["geoms"]))
         lines.append("end")
-        lines.append("props 0")
-    return lines
+        nout += 1
+        op("irange 1 %d %d" % (hist[-1]["range"][0], hist[-1]["range"][1]))
+        a = op("compile 1 1")
+        b = op("props 1")
+        steps.append(("fresh", a, b, hist[-1]["bodies"]))
+    return lines, steps, nout
+
+
+def judge_history(ev, steps, got):
+    """None or (step id, field class, text)"""
+    for (k, a, b, bodies) in steps:
+        if a >= len(got) or b >= len(got):
+            return k, "crash", "harness died"
+        v = judge(ev, got[a], got[b], bodies)
+        if v is not None:
+            return k, v[0], v[1]
+    return None
+
+
+def _left_range(ev):
+    """a geom counted by one compile is outside the range at the next"""
+    hist = ev["hist"]
+    for k in range(1, len(hist)):
+        for g0, g1 in zip(hist[k - 1]["geoms"], hist[k]["geoms"]):
+            r0, r1 = hist[k - 1]["range"], hist[k]["range"]
+            if r0[0] <= g0["group"] <= r0[1] and not (r1[0] <= g1["group"] <= r1[1]):
+                return hist[k]["how"]
+    return None
+
+
+def _entered_range(ev):
+    hist = ev["hist"]
+    for k in range(1, len(hist)):
+        for g0, g1 in zip(hist[k - 1]["geoms"], hist[k]["geoms"]):
+            r0, r1 = hist[k - 1]["range"], hist[k]["range"]
+            if not (r0[0] <= g0["group"] <= r0[1]) and r1[0] <= g1["group"] <= r1[1]:
+                return True
+    return False
+
+
+def _edited(ev, op):
+    return any(e["op"] == op for h in ev["hist"][1:] for e in h["edits"])
 
 
 NEED = {
@@ -212,6 +333,16 @@ NEED = {
     "static child fused into the body": lambda ev: ev["child"]["mode"] == "fused" and any(g["own"] == 2 for g in ev["geoms"]),
     "static child kept separate": lambda ev: len(ev["bodies"]) == 2,
     "rotated geom": lambda ev: any(g["R"] != ((1, 0, 0), (0, 1, 0), (0, 0, 1)) for g in ev["geoms"]),
+    "a once-counted geom that leaves inertiagrouprange before an mj_recompile": lambda ev: _left_range(ev) == "recompile",
+    "a once-counted geom that leaves inertiagrouprange before a second mj_compile": lambda ev: _left_range(ev) == "compile2",
+    "a geom that enters inertiagrouprange between two compiles": _entered_range,
+    "a geom leaving the range by an edit of its group": lambda ev: _left_range(ev) and _edited(ev, "group"),
+    "a geom leaving the range by an edit of the range": lambda ev: _left_range(ev) and _edited(ev, "range"),
+    "density / mass edited between two compiles": lambda ev: _edited(ev, "density"),
+    "size edited between two compiles": lambda ev: _edited(ev, "size"),
+    "a separate child body left without a counted geom": lambda ev: any(b["zero"] for h in ev["hist"][1:] for b in h["bodies"]),
+    "a recompile without any edit": lambda ev: any(not h["edits"] for h in ev["hist"][1:]),
+    "a history of three compiles": lambda ev: len(ev["hist"]) >= 3,
 }
 
 
@@ -221,18 +352,23 @@ def run(ctx):
                "integer half sizes, offsets, densities; the 24 axis-aligned orientations; meshes are 12-triangle boxes",
                "mesh inertia modes exact / legacy / shell (the convex mode needs qhull, absent from the offline build)",
                "comparison: 1e-9 relative to the mass / to the largest coordinate (min 1) / to the largest tensor entry")
-    nsim = 800 if ctx.quick else 6000
+    nsim = 300 if ctx.quick else 4000
     jobs = [(mc_models, ("MassProps_MC.cfg", "MassProps_MC", 900)),
-            (mc_models, ("MassProps_Mesh.cfg", "MassProps_Mesh", 900))]
+            (mc_models, ("MassProps_Mesh.cfg", "MassProps_Mesh", 900)),
+            (mc_models, ("MassProps_Edit.cfg", "MassProps_Edit", 900))]
     if not ctx.quick:
         jobs += [(mc_models, ("MassProps_Deep.cfg", "MassProps_Deep", 3000)),
-                 (mc_models, ("MassProps_MeshDeep.cfg", "MassProps_MeshDeep", 3000))]
+                 (mc_models, ("MassProps_MeshDeep.cfg", "MassProps_MeshDeep", 3000)),
+                 (mc_models, ("MassProps_EditDeep.cfg", "MassProps_EditDeep", 3000)),
+                 (mc_models, ("MassProps_Edit3.cfg", "MassProps_Edit3", 3000))]
     jobs.append((sim_models, ("MassProps_Sim.cfg", "MassProps_Sim", nsim, ctx.seed + 1, 900 if ctx.quick else 3000)))
     jobs.append((negative_run, ("MassProps_Neg1.cfg", "TLC refutes 'a body tensor has no products of inertia'")))
+    jobs.append((negative_run, ("MassProps_NegStale.cfg", "TLC refutes HistoryIndependent when geoms are counted by the mass "
+                                                          "a previous compile left in them")))
     if not ctx.quick:
         jobs.append((negative_run, ("MassProps_Neg2.cfg", "TLC refutes 'the centre of mass is the first geom's centre'")))
     # the TLC runs are independent JVMs: run them side by side
-    with cf.ThreadPoolExecutor(max_workers=4) as ex:
+    with cf.ThreadPoolExecutor(max_workers=6) as ex:
         results = [f.result() for f in [ex.submit(fn, *a) for fn, a in jobs]]
     groups = []
     for name, res, evs in results:
@@ -251,44 +387,73 @@ def run(ctx):
     for what, pred in NEED.items():
         if not any(pred(ev) for ev in evs):
             raise Machinery("vacuity: no replayed model with " + what)
-    r = drv.run_script(exe, script(evs), timeout=1800)
-    if len(r.lines) < 2 * len(evs) and not r.crashed:
-        raise Machinery("harness produced %d lines for %d models: %s" % (len(r.lines), len(evs), r.err[-300:]))
-    # negative controls of the comparer: a perturbed expectation and a perturbed observation must be flagged
+    lines, index = [], []
+    nout = 0
+    for ev in evs:
+        l, steps, n = history_script(ev)
+        index.append((nout, n, steps, len(lines), len(l)))
+        lines += l
+        nout += n
+    r = drv.run_script(exe, lines, timeout=2400)
+    if len(r.lines) < nout and not r.crashed:
+        raise Machinery("harness produced %d lines for %d commands: %s" % (len(r.lines), nout, r.err[-300:]))
+
+    def verdict(i, ev=None):
+        off, n, steps, _lo, _ln = index[i]
+        return judge_history(evs[i] if ev is None else ev, steps, r.lines[off:off + n])
+    # negative controls of the comparer: a perturbed expectation must be flagged
     # (on a model that agrees with the specification; if no multi-geom model agrees, everything below is reported anyway)
-    k = next((i for i, ev in enumerate(evs) if len(ev["geoms"]) >= 2 and 2 * i + 1 < len(r.lines)
-              and judge(ev, r.lines[2 * i], r.lines[2 * i + 1]) is None), None)
+    k = next((i for i, ev in enumerate(evs) if len(ev["geoms"]) >= 2 and not ev["hist"][0]["bodies"][0]["zero"]
+              and verdict(i) is None), None)
     if k is None:
         ctx.control("expected Ixx perturbed by 1e-5 of the largest entry is flagged (no agreeing model to perturb)", True)
     else:
-        bad = dict(evs[k])
-        bad["bodies"] = tuple(dict(b, I=tuple(x + (max(abs(y) for y in b["I"]) // 10 ** 5 + 1 if j == 0 else 0)
-                                              for j, x in enumerate(b["I"]))) for b in evs[k]["bodies"])
-        ctx.control("expected Ixx perturbed by 1e-5 of the largest entry is flagged",
-                    judge(bad, r.lines[2 * k], r.lines[2 * k + 1]) is not None)
-        bad = dict(evs[k])
-        bad["bodies"] = tuple(dict(b, S=(b["S"][0] + 1,) + tuple(b["S"][1:])) for b in evs[k]["bodies"])
-        ctx.control("expected centre of mass shifted by 1/M is flagged", judge(bad, r.lines[2 * k], r.lines[2 * k + 1]) is not None)
+        off, n, steps, _lo, _ln = index[k]
+
+        def perturbed(fn):
+            st = [(a, b, c, tuple(fn(x) if j == 0 else x for j, x in enumerate(bodies))) for (a, b, c, bodies) in steps]
+            return judge_history(evs[k], st, r.lines[off:off + n])
+        ctx.control("expected Ixx perturbed by 1e-5 of the largest entry is flagged", perturbed(
+            lambda b: dict(b, I=tuple(x + (max(abs(y) for y in b["I"]) // 10 ** 5 + 1 if j == 0 else 0)
+                                      for j, x in enumerate(b["I"])))) is not None)
+        ctx.control("expected centre of mass shifted by 1/M is flagged", perturbed(
+            lambda b: dict(b, S=(b["S"][0] + 1,) + tuple(b["S"][1:]))) is not None)
+    kh = next((i for i, ev in enumerate(evs) if _left_range(ev) and verdict(i) is None), None)
+    if kh is not None:
+        # the expectation of a stale compiler: the last compile keeps the bodies of the compile before it
+        off, n, steps, _lo, _ln = index[kh]
+        hk = next(j for j in range(1, len(evs[kh]["hist"])) if _left_range(dict(evs[kh], hist=evs[kh]["hist"][j - 1:j + 1])))
+        st = [(a, b, c, steps[hk - 1][3] if a == hk else bodies) for (a, b, c, bodies) in steps]
+        ctx.control("an expectation that ignores the geom leaving the range is flagged",
+                    judge_history(evs[kh], st, r.lines[off:off + n]) is not None)
     for i, ev in enumerate(evs):
-        okl = r.lines[2 * i] if 2 * i < len(r.lines) else None
-        prl = r.lines[2 * i + 1] if 2 * i + 1 < len(r.lines) else None
-        key = tlc.to_py({"geoms": ev["geoms"], "child": ev["child"], "tmass": ev["tmass"]})
-        ctx.case(key, nontrivial=True, sample={"features": features(ev), "bodies": tlc.to_py(ev["bodies"])})
-        if okl is None or prl is None:
-            ctx.violation("C35:crash:" + features(ev), "harness died (%s) while compiling %s" % (r.crash_text(), features(ev)),
-                          {"lines": model_lines(ev), "ev": tlc.to_py(ev)})
-            break
-        v = judge(ev, okl, prl)
+        off, n, steps, lo, ln = index[i]
+        key = tlc.to_py({"child": ev["child"], "tmass": ev["tmass"],
+                         "hist": [{"how": h["how"], "edits": h["edits"], "geoms": h["geoms"], "range": h["range"]}
+                                  for h in ev["hist"]]})
+        ctx.case(key, nontrivial=True, sample={"features": features(ev), "compiles": len(ev["hist"]),
+                                               "bodies": tlc.to_py(ev["bodies"])})
+        v = verdict(i)
         if v is None:
             ctx.trace_ok()
             continue
-        sig = "C35:" + v[0] if v[0].startswith("tensor:principal") else "C35:%s:%s" % (v[0], features(ev))
-        ctx.violation(sig, "%s (model %s)" % (v[1], features(ev)), {"lines": model_lines(ev), "ev": tlc.to_py(ev)})
+        step, cls, text = v
+        rp = {"lines": lines[lo:lo + ln], "ev": tlc.to_py(ev)}
+        if cls == "crash":
+            ctx.violation("C35:crash:" + features(ev) + step_class(ev, step),
+                          "harness died (%s) while compiling %s" % (r.crash_text(), features(ev)), rp)
+            break
+        sig = "C35:" + cls if cls.startswith("tensor:principal") else "C35:%s:%s%s" % (cls, features(ev), step_class(ev, step))
+        ctx.violation(sig, "%s (model %s, compile %s of %d%s)" % (text, features(ev), step if step == "fresh" else step + 1,
+                                                                 len(ev["hist"]), step_class(ev, step)), rp)
     ctx.cov["exhaustive"] = True
-    ctx.cov["rule"] = ("models = every finished model of the exhaustive lattices %s + %d simulated models of the full lattice; "
-                       "each is compiled once and mass, centre of mass, full inertia tensor and the triangle inequality "
-                       "are compared for every body; non-trivial = every model (mass > 0); distinct = distinct "
-                       "(geoms, child, settotalmass)" % ([(n, len(g)) for n, g in groups[:-1]], len(groups[-1][1])))
+    ctx.cov["rule"] = ("behaviours = every final state of the exhaustive lattices %s + %d simulated behaviours of the full "
+                       "lattice; a behaviour is a history of 1-3 compiles of ONE mjSpec (edits of group / range / density / "
+                       "mass / size / pos in between, mj_recompile or mj_compile again); after every compile mass, centre of "
+                       "mass, full inertia tensor and the triangle inequality are compared for every body, and the final "
+                       "content is compiled once more from a fresh spec; non-trivial = every behaviour (mass > 0); distinct = "
+                       "distinct (child, settotalmass, history of contents and edits)" % (
+                           [(n, len(g)) for n, g in groups[:-1]], len(groups[-1][1])))
 
 
 def _tup(x):
@@ -302,11 +467,12 @@ def _tup(x):
 def replay(ctx, rp):
     exe = harness()
     ev = _tup(rp["replay"]["ev"])
-    r = drv.run_script(exe, ["model 0"] + rp["replay"]["lines"] + ["end", "props 0"], timeout=300)
-    okl = r.lines[0] if r.lines else None
-    prl = r.lines[1] if len(r.lines) > 1 else None
-    v = judge(ev, okl, prl) if okl is not None and prl is not None else ("crash", r.crash_text())
-    print("compile: %s\nprops: %s\nverdict: %s" % (okl, prl, v))
+    lines, steps, n = history_script(ev)
+    r = drv.run_script(exe, lines, timeout=300)
+    v = judge_history(ev, steps, r.lines)
+    for (k, a, b, _bodies) in steps:
+        print("compile %s: %s | %s" % (k, r.lines[a] if a < len(r.lines) else None, (r.lines[b] if b < len(r.lines) else "")[:300]))
+    print("verdict: %s" % (v,))
     if v is not None:
         ctx.violation(rp["signature"], rp["what"], rp["replay"])
     ctx.case({"replay": rp["signature"]})
